@@ -2890,7 +2890,12 @@ def interconnect(
         dropped_inputs, dropped_outputs = newsys.check_unused_signals(
             ignore_inputs, ignore_outputs, print_warning=False)
 
-        # Add on any unused signals that we aren't ignoring
+        # Add on any unused signals that we aren't ignoring (on copies, so
+        # that label lists passed by the caller are left alone)
+        if isinstance(inputs, list):
+            inputs = inputs.copy()
+        if isinstance(outputs, list):
+            outputs = outputs.copy()
         for isys, isig in dropped_inputs:
             inplist.append((isys, isig))
             inputs.append(newsys.syslist[isys].input_labels[isig])
